@@ -37,7 +37,8 @@ def run(rep, tier, driver):
 
     def lit():
         x = apigen.random_input(rng, vocab, p_bad=0.3)
-        if not isinstance(x, str) or x == "" or x.startswith("-") or "\x00" in x or len(x) > 200:
+        # a literal argument containing a line terminator cannot be listed on one line: outside the contract, not generated
+        if not isinstance(x, str) or x == "" or x.startswith("-") or "\x00" in x or len(x) > 200 or any(c in x for c in "\n\r\x0b\x0c\x1c\x1d\x1e\x85\u2028\u2029"):
             x = rng.choice(apigen.GOOD + ["Gal,Glc", "Glc,", "Man(a1-2)Man,Man"])
         return x
 
